@@ -172,6 +172,7 @@ func (cx *Ctx) runC01() {
 			}
 		}
 	}
+	after := cx.c01AfterAbort(&r)
 	st, _ := cx.determinismSample(jobs, results, 30)
 	wall := time.Since(cx.Start).Seconds()
 	cov := map[string]any{
@@ -195,6 +196,7 @@ func (cx *Ctx) runC01() {
 		"max_depth_of_a_returning_run": maxDepth,
 		"budget_rule":                  budgetRule,
 		"faults_fired":                 map[string]int{"map-order permutation": range2, "clock origin (RNG seed) chosen by simulator": evals},
+		"calls_after_an_aborted_call":  after,
 		"determinism_selftest":         st,
 		"regression_corpus_specs":     corpusN,
 		"known_findings_confirmed":     known,
@@ -272,4 +274,109 @@ func (cx *Ctx) c01Minimise(job *spec.Job, j int, key, fam string) {
 		return
 	}
 	cx.report(k, what, &ReplayFile{Property: "C01", Oracle: "c01.returns", Key: k, What: what, Jobs: []ReplayJob{{Pool: "simfresh", Job: final}}, Expect: fp})
+}
+
+
+// c01AfterAbort: a valid call must also return when an EARLIER call of the same process left Layout abnormally - through
+// the documented panic on an empty or malformed source, or through a panic / runtime.Goexit raised by the caller's own
+// monitor. (Whatever such an exit leaves behind - a held lock, a half-updated table - is process state the next call meets.)
+func (cx *Ctx) c01AfterAbort(r *rng) map[string]any {
+	n := cx.count(250, 20000)
+	gc := genCfg{allowRandomGreedy: true, nastyPct: 5, multiPct: 25, bigPct: 0}
+	var jobs []*spec.Job
+	for i := 0; i < n; i++ {
+		es, _ := genGraph(r, gc)
+		ab := spec.Call{Edges: es, Opts: genOptions(r, es, gc)}
+		switch r.intn(4) {
+		case 0:
+			ab.Edges = [][]string{}
+		case 1:
+			k := r.intn(len(ab.Edges))
+			ab.Edges[k] = []string{ab.Edges[k][0]}
+		case 2:
+			ab.Edges = append(ab.Edges, []string{"sl", "sl"})
+			ab.Monitor = spec.MonitorSpec{Role: "record", Fault: "panic", At: r.between(1, 4)}
+		default:
+			ab.Edges = append(ab.Edges, []string{"sl", "sl"})
+			ab.Monitor = spec.MonitorSpec{Role: "record", Fault: "goexit", At: r.between(1, 4)}
+		}
+		if ab.Opts.P5 == "splines" {
+			ab.Opts.P5 = "polyline"
+		}
+		calls := []spec.Call{ab}
+		for k := r.between(1, 2); k > 0; k-- {
+			e2, _ := genGraph(r, gc)
+			v := spec.Call{Edges: e2, Opts: genOptions(r, e2, gc)}
+			if r.chance(50) {
+				v.Opts = ab.Opts // the same algorithms meet what the aborted call left behind
+				v.Opts.Sizes = nil
+			}
+			if v.Opts.P5 == "splines" { // known findings live there; they are judged by the main batch
+				v.Opts.P5 = "ortho"
+			}
+			calls = append(calls, v)
+		}
+		b := budgetFor(40, 40)
+		b.Ticks = 400_000_000
+		jobs = append(jobs, &spec.Job{ID: i, Kind: "history", Calls: calls, Res: []spec.Resolution{{Adv: "identity"}}, Budgets: b})
+	}
+	res := cx.simFresh.Run(jobs, nil)
+	aborted, valid, failed := 0, 0, 0
+	for _, jr := range res {
+		if v, key, what, fp := cx.oracleAfterAbort([]JobResult{jr}); v {
+			failed++
+			if cx.hasViolation(key) || cx.isKnown(key) != nil {
+				cx.report(key, what, nil)
+			} else {
+				j := *jr.Job
+				cx.report(key, what, &ReplayFile{Property: "C01", Oracle: "c01.afterabort", Key: key, What: what, Jobs: []ReplayJob{{Pool: "simfresh", Job: j}}, Expect: fp})
+			}
+		}
+		if jr.Res != nil {
+			for i, o := range jr.Res.Outcomes {
+				if i == 0 && o.Verdict != "OK" {
+					aborted++
+				} else if i > 0 {
+					valid++
+				}
+			}
+		}
+	}
+	return map[string]any{"histories": n, "first_calls_that_aborted": aborted, "valid_calls_after_them": valid, "of_which_failed": failed,
+		"abort_kinds": "empty source, malformed edge, panic in Monitor.Log at event j, runtime.Goexit in Monitor.Log at event j"}
+}
+
+// oracleAfterAbort: job = history [aborting call, valid call(s)]; every call after the first must return.
+func (cx *Ctx) oracleAfterAbort(rs []JobResult) (bool, string, string, string) {
+	if len(rs) != 1 || rs[0].Res == nil {
+		return false, "", "", ""
+	}
+	jr := rs[0]
+	if jr.Res.Error != "" {
+		cx.trouble("history job: %s", jr.Res.Error)
+		return false, "", "", ""
+	}
+	for i, o := range jr.Res.Outcomes {
+		if i == 0 || o.Verdict == "OK" {
+			continue
+		}
+		if o.Verdict == "HARNESS" {
+			cx.trouble("harness verdict: %s", o.Detail)
+			return false, "", "", ""
+		}
+		c := jr.Job.Calls[i]
+		first := jr.Job.Calls[0]
+		how := "an empty source"
+		switch {
+		case first.Monitor.Fault != "":
+			how = fmt.Sprintf("%s raised by its monitor at event %d", first.Monitor.Fault, first.Monitor.At)
+		case len(first.Edges) > 0:
+			how = "a malformed edge"
+		}
+		key := "after-abort | " + failKey(o)
+		what := fmt.Sprintf("after an earlier call of the same process had left Layout through %s (%s), the valid call Layout(%s; %s) %s",
+			how, jr.Res.Outcomes[0].Verdict, edgesText(c.Edges), optsText(c.Opts), describe(o))
+		return true, key, what, fpOf(key)
+	}
+	return false, "", "", ""
 }
